@@ -249,6 +249,20 @@ def gen_cases(col, kind, ents, tier):
                     yield ("%s = '%s' or %s = %s" % (gcol, lit, a, b), (lambda e, g=g, a=a, b=b: g(e) or e[a] == e[b]), 'col-col-beside-glob')
                     yield ("%s = %s or %s = '%s'" % (a, b, gcol, lit), (lambda e, g=g, a=a, b=b: g(e) or e[a] == e[b]), 'col-col-beside-glob')
                     yield ("%s != '%s' and %s != %s" % (gcol, lit, a, b), (lambda e, g=g, a=a, b=b: (not g(e)) and e[a] != e[b]), 'col-col-beside-glob')
+        # a wildcard literal and the regular expression that spells what it means, side by side: LIKE and wildcard = ignore letter case,
+        # rx does not (each comparison keeps its own meaning whichever is evaluated first)
+        import re as _re
+        for wl, rx, op in (('name%', '^name.*$', 'like'), ('nam_', '^nam.$', 'like'), ('name*', '^name.*$', '='), ('siz?', '^siz.$', '='), ('%.txt', '^.*\\.txt$', 'like'),
+                           ('a.bin', '^a\\.bin$', 'like'), ('true', '^true$', 'like'), ('NAME%', '^NAME.*$', 'like'), ('*.TXT', '^.*\\.TXT$', '=')):
+            w = (lambda e, wl=wl, op=op: mt.like_match(wl, e['name']) if op == 'like' else mt.glob_match(wl, e['name']))
+            x = (lambda e, rx=rx: _re.search(rx.replace('\\\\', '\\'), e['name']) is not None)
+            lw, lx = "name %s '%s'" % (op, wl), "name rx '%s'" % rx
+            yield ('%s and %s' % (lw, lx), (lambda e, w=w, x=x: w(e) and x(e)), 'wildcard-beside-its-regex')
+            yield ('%s and %s' % (lx, lw), (lambda e, w=w, x=x: w(e) and x(e)), 'wildcard-beside-its-regex')
+            yield ('%s or %s' % (lx, lw), (lambda e, w=w, x=x: w(e) or x(e)), 'wildcard-beside-its-regex')
+            yield ('%s or %s' % (lw, lx), (lambda e, w=w, x=x: w(e) or x(e)), 'wildcard-beside-its-regex')
+            yield ('%s and not %s' % (lw, lx), (lambda e, w=w, x=x: w(e) and not x(e)), 'wildcard-beside-its-regex')
+            yield ('not %s and %s' % (lx, lw), (lambda e, w=w, x=x: w(e) and not x(e)), 'wildcard-beside-its-regex')
     elif kind == 'colcol':
         pairs = [('size', 'hardlinks'), ('uid', 'gid'), ('size', 'length(name)'), ('hardlinks', 'length(name)'), ('gid', 'size')]
         for a, b in pairs:
